@@ -37,6 +37,10 @@ bool Parser::parseStatement(StatementSyntax*& stmt, StatementContext stmtCtx)
 {
     DBG_THIS_RULE();
 
+    DepthControl _(DEPTH_OF_NESTED_STMTS_,
+                   MAX_DEPTH_OF_NESTED_STMTS,
+                   "maximum depth of statements reached");
+
     switch (peek().kind()) {
         case SyntaxKind::Keyword__Static_assert:
             return parseDeclarationStatement(
